@@ -133,7 +133,13 @@ func genSpanBatch(r *vgen.Rand, tiny bool) spanBatch {
 		}
 		st.SpanContext = trace.NewSpanContext(trace.SpanContextConfig{TraceID: vgen.Pick(r, traceIDs), SpanID: genSpanID(r, i+1),
 			TraceFlags: trace.TraceFlags(r.Intn(2)), TraceState: mustTS(vgen.Pick(r, traceStates)), Remote: r.Chance(1, 8)})
-		switch r.Intn(4) {
+		switch r.Intn(5) {
+		case 4: // a parent context that is only half valid: the parent span id alone decides what is sent
+			if r.Bool() {
+				st.Parent = trace.NewSpanContext(trace.SpanContextConfig{SpanID: genSpanID(r, 1000+i), Remote: r.Bool()}) // span id, zero trace id
+			} else {
+				st.Parent = trace.NewSpanContext(trace.SpanContextConfig{TraceID: st.SpanContext.TraceID(), Remote: r.Bool()}) // trace id, zero span id
+			}
 		case 0: // root
 		case 1:
 			st.Parent = trace.NewSpanContext(trace.SpanContextConfig{TraceID: st.SpanContext.TraceID(), SpanID: genSpanID(r, 1000+i), Remote: true})
@@ -496,9 +502,14 @@ func traceCorpus() []spanBatch {
 	a.DroppedAttributes, a.DroppedEvents, a.DroppedLinks = 1, 2, 3
 	a.Events = []tracesdk.Event{{Name: "e", Time: time.Unix(0, baseNanos+7), DroppedAttributeCount: 4, Attributes: []attribute.KeyValue{attribute.Int64Slice("is", []int64{1, -2})}}}
 	a.Links = []tracesdk.Link{{SpanContext: trace.NewSpanContext(trace.SpanContextConfig{TraceID: tid, SpanID: trace.SpanID{8, 8, 8, 8, 8, 8, 8, 8}, Remote: true}), DroppedAttributeCount: 5}}
+	// parentage with half-valid parent contexts: span id without trace id (sent), trace id without span id (not sent)
+	ph := mk(3, "parent-span-id-only", res3, instrumentation.Scope{})
+	ph.Parent = trace.NewSpanContext(trace.SpanContextConfig{SpanID: trace.SpanID{4, 4, 4, 4, 4, 4, 4, 4}})
+	pt := mk(4, "parent-trace-id-only", res3, instrumentation.Scope{})
+	pt.Parent = trace.NewSpanContext(trace.SpanContextConfig{TraceID: tid, Remote: true})
 	bq := mk(2, "unset", res3, instrumentation.Scope{})
 	bq.Status = tracesdk.Status{}
 	bq.DroppedAttributes = math.MaxUint32
-	out = append(out, spanBatch{stubs: tracetest.SpanStubs{a, bq}, resources: []*resource.Resource{res3}, scopes: []instrumentation.Scope{{}}, ri: []int{0, 0}, si: []int{0, 0}})
+	out = append(out, spanBatch{stubs: tracetest.SpanStubs{a, bq, ph, pt}, resources: []*resource.Resource{res3}, scopes: []instrumentation.Scope{{}}, ri: []int{0, 0, 0, 0}, si: []int{0, 0, 0, 0}})
 	return out
 }
